@@ -390,7 +390,7 @@ def fuzz(acc, target, fn, runs, nproc=None, max_len=64, corpus_seeds=()):
             return
     procs = []
     for i in range(nproc):
-        out = fresh_dir(f"fuzz-{target}-{i}")
+        out = fresh_dir(f"fuzz-{target.replace(':', '_')}-{i}")
         corpus = os.path.join(out, "corpus")
         os.makedirs(corpus)
         if i % 2 == 1:
@@ -398,7 +398,10 @@ def fuzz(acc, target, fn, runs, nproc=None, max_len=64, corpus_seeds=()):
                 with open(os.path.join(corpus, f"seed{j}"), "wb") as fh:
                     fh.write(bytes(blob))
         cmd = [sys.executable, "-B", os.path.join(ROOT, "pv", "fuzz", "target.py"), acc.prop, target, out,
-               f"-runs={runs}", f"-seed={SEED * 1000 + i + 1}", f"-max_len={max_len}", "-print_final_stats=0", corpus]
+               f"-runs={runs}", f"-seed={SEED * 1000 + i + 1}", f"-max_len={max_len}", "-print_final_stats=0"]
+        if target.startswith("hyp:"):
+            cmd.append("-len_control=0")  # Hypothesis rejects short buffers: start at full length
+        cmd.append(corpus)
         env = dict(os.environ, PV_ROOT=ROOT, PYTHONHASHSEED="0")
         procs.append((out, subprocess.Popen(cmd, env=env, stdout=subprocess.DEVNULL, stderr=subprocess.DEVNULL, cwd=out)))
     total = {"executions": 0, "nontrivial": 0, "known": 0, "campaigns": 0}
